@@ -21,7 +21,7 @@ FLOORS = {"lockstep-next": 1}
 
 
 def shards(tier, seed):
-    pairs = [(0, 5), (1757, 3), (240, 0), (10 ** 9, 7)]
+    pairs = [(0, 5), (-6, 3), (240, -2), (10 ** 9, 7)]  # (a, b): starts a and 7*b, negative ones included ("arbitrary start values")
     if tier == "quick":
         out = [{"kind": "dfs", "depth": 9, "a": a, "b": b, "first": f, "pre": pre} for (a, b) in pairs[:2] for f in range(3) for pre in (0, 6, 17)]
         out += [{"kind": "random", "n": 1250, "part": p} for p in range(4)]
@@ -106,11 +106,11 @@ def run(shard, rec, tier, seed):
             for _ in range(L):
                 if rng.random() < pset:
                     kind = rng.choice(["zero", "account", "init", "init7", "ping", "simple"])
-                    v = rng.choice([0, 1, 9, 10, 240, 1757, 2 ** 31, 10 ** 12, rng.randrange(0, 2000)])
+                    v = rng.choice([0, 1, 9, 10, 240, 1757, 2 ** 31, 10 ** 12, rng.randrange(0, 2000), -1, -6, -9, -1757, -rng.randrange(1, 30)])
                     h.append(("set", kind, v))
                 else:
                     h.append(("next",))
-            replay(rec, PS, ss, h, rng.choice([0, 0, 5, 1757, 10 ** 9]))
+            replay(rec, PS, ss, h, rng.choice([0, 0, 5, 1757, 10 ** 9, -4, -13]))
             rec.case(h, nontrivial=any(o[0] == "next" for o in h))
         rec.sample({"history": h[:12], "length": len(h)})
 
